@@ -7,7 +7,7 @@ ID="$1"; DEMO="$2"; DST="$3"; shift 3
 export GOFLAGS=-mod=mod GOPROXY=off GOSUMDB=off GOTOOLCHAIN=local
 W=/tmp/sv-$ID
 git -C /repo worktree remove --force $W 2>/dev/null
-git -C /repo worktree add -q --detach $W HEAD || exit 3
+git -C /repo worktree add -q --detach $W ${BASE:-HEAD} || exit 3
 trap 'git -C /repo worktree remove --force '$W EXIT
 cd $W
 git apply /tmp/seed/$ID/SEED/patch.diff || { echo "PATCH DOES NOT APPLY"; exit 3; }
